@@ -193,7 +193,7 @@ class C06(Prop):
     s = detsched.Scheduler(schedule=case["schedule"], step_limit=400000,
                            trace_files=[files["activeobject"]])
     try:
-      s.run(body)
+      detsched.guarded_run(s, body)
     except detsched.Deadlock as e:
       raise PropertyViolation("deadlock: %s" % e, "C06:deadlock")
     except detsched.StepLimit as e:
